@@ -1,2 +1,353 @@
-/-! stub: replaced by the Collect group driver -/
-def main : IO Unit := pure ()
+import MesaModel.Model.Collect
+import MesaModel.Model.Batch
+/-!
+Line-protocol driver for the DataCollector / batch_run models (C12, C13, C18-collect).
+One output line per input line.  Producer: harness/collect_common.py.
+
+  scenario collect|batch        reset
+  classes p0 p1 …               class i derives from class p_i (< i) or, with `-`, directly from Agent;
+                                ids ≥ the number of classes are types that are not Agent subclasses
+  mrep attr a | mrep fn F | mrep meth F | mrep args k d G          model reporter (named m0, m1, … in order)
+  arep attr a | arep fn A | arep meth A | arep args k d AG         agent reporter (a0, a1, …)
+  trep T rep ; rep ; …                                             agent-type reporters of class T
+  table t c0 c1 …
+    F: count | steps | sum a | get a      G: lin a | cnt      A: get a | id | twice a | steps     AG: lin a
+  -- scenario collect
+  start                          construct the DataCollector
+  create ty a=v … | remove id | step | mset a v | mapp a x | mdel a | aset id a v | adel id a
+  collect | row t ign|strict c=v … | stop k
+  mvars | mframe | aframe | tframe T | tab t            (observations)
+  -- scenario batch
+  init op ; op ; …   body op ; op ; …     op templates: `$p` in an int position = the int carried by
+                                          kwarg p (token `i<k>` ↦ k, other tokens ↦ sum of char codes,
+                                          absent ↦ 0); `rep n op` = n copies
+  param p str|sized|iter|scalar tok …
+  kwargs                         → the list of kwargs dicts
+  run iterations max_steps period
+  runp iterations max_steps period number_processes     (rows compared after ordering the runs by RunId)
+  Values: N | int | L | Lx,y,…
+-/
+open Mesa.Collect Mesa.Batch
+
+def words (s : String) : List String := (s.splitOn " ").filter (· ≠ "")
+
+def parseVal (s : String) : Option Val :=
+  match s.toList with
+  | ['N'] => some .none
+  | 'L' :: rest =>
+    if rest.isEmpty then some (.list [])
+    else ((String.ofList rest).splitOn ",").mapM String.toInt? |>.map .list
+  | _ => s.toInt? |>.map .int
+
+def fmtVal : Val → String
+  | .none => "N"
+  | .int i => toString i
+  | .list xs => "L" ++ ",".intercalate (xs.map toString)
+
+def fmtVals (vs : List Val) : String := "|".intercalate (vs.map fmtVal)
+
+def parsePair (w : String) : Option (Nat × Val) :=
+  match w.splitOn "=" with
+  | [a, v] => do pure (← a.toNat?, ← parseVal v)
+  | _ => none
+
+def sumAttr (sn : Snap) (a : Nat) : Int :=
+  sn.agents.foldl (fun acc ag => match getAttr ag.attrs a with | .int v => acc + v | _ => acc) 0
+
+def parseF : List String → Option (Snap → Val)
+  | ["count"] => some fun sn => .int sn.agents.length
+  | ["steps"] => some fun sn => .int sn.steps
+  | ["sum", a] => do let a ← a.toNat?; pure fun sn => .int (sumAttr sn a)
+  | ["get", a] => do let a ← a.toNat?; pure fun sn => getAttr sn.attrs a
+  | _ => none
+
+def parseG : List String → Option (List Int → Snap → Val)
+  | ["lin", a] => do
+      let a ← a.toNat?
+      pure fun args sn => match args, getAttr sn.attrs a with
+        | [k, d], .int v => .int (k * v + d)
+        | _, _ => .none
+  | ["cnt"] => some fun args sn => match args with
+      | [k, d] => .int (k * sn.agents.length + d)
+      | _ => .none
+  | _ => none
+
+def parseA : List String → Option (Snap → AgentS → Val)
+  | ["get", a] => do let a ← a.toNat?; pure fun _ ag => getAttr ag.attrs a
+  | ["id"] => some fun _ ag => .int ag.id
+  | ["twice", a] => do
+      let a ← a.toNat?
+      pure fun _ ag => match getAttr ag.attrs a with | .int v => .int (2 * v) | _ => .none
+  | ["steps"] => some fun sn _ => .int sn.steps
+  | _ => none
+
+def parseAG : List String → Option (List Int → Snap → AgentS → Val)
+  | ["lin", a] => do
+      let a ← a.toNat?
+      pure fun args _ ag => match args, getAttr ag.attrs a with
+        | [k, d], .int v => .int (k * v + d)
+        | _, _ => .none
+  | _ => none
+
+def parseMRep : List String → Option MRep
+  | ["attr", a] => do pure (.attr (← a.toNat?))
+  | "fn" :: f => do pure (.fn (← parseF f))
+  | "meth" :: f => do pure (.meth (← parseF f))
+  | "args" :: k :: d :: g => do pure (.fnArgs (← parseG g) [← k.toInt?, ← d.toInt?])
+  | _ => none
+
+def parseARep : List String → Option ARep
+  | ["attr", a] => do pure (.attr (← a.toNat?))
+  | "fn" :: f => do pure (.fn (← parseA f))
+  | "meth" :: f => do pure (.meth (← parseA f))
+  | "args" :: k :: d :: g => do pure (.fnArgs (← parseAG g) [← k.toInt?, ← d.toInt?])
+  | _ => none
+
+/-- split a word list at ";" -/
+def splitSemi (ws : List String) : List (List String) :=
+  ((" ".intercalate ws).splitOn ";").map words |>.filter (· ≠ [])
+
+def parseOp : List String → Option Op
+  | "create" :: ty :: ps => do pure (.create (← ty.toNat?) (← ps.mapM parsePair))
+  | ["remove", i] => do pure (.remove (← i.toNat?))
+  | ["step"] => some .step
+  | ["mset", a, v] => do pure (.mset (← a.toNat?) (← parseVal v))
+  | ["mapp", a, x] => do pure (.mapp (← a.toNat?) (← x.toInt?))
+  | ["mdel", a] => do pure (.mdel (← a.toNat?))
+  | ["aset", i, a, v] => do pure (.aset (← i.toNat?) (← a.toNat?) (← parseVal v))
+  | ["adel", i, a] => do pure (.adel (← i.toNat?) (← a.toNat?))
+  | ["collect"] => some .collect
+  | "row" :: t :: m :: ps => do
+      let ign ← (if m = "ign" then some true else if m = "strict" then some false else none)
+      pure (.row (← t.toNat?) (← ps.mapM parsePair) ign)
+  | ["stop", k] => do pure (.stopAt (← k.toNat?))
+  | _ => none
+
+def fmtErr : Err → String
+  | .attr => "err Attr" | .value => "err Value" | .key => "err Key" | .unknown => "err Unknown"
+  | .missing => "err Missing" | .warn => "err Warn" | .index => "err Index"
+
+def fmtRow (r : Row) : String := s!"{r.step}/{r.id}:{fmtVals r.vals}"
+
+def fmtRows (ncols : Nat) (rows : List Row) : String :=
+  " ".intercalate (s!"ok cols={ncols}" :: rows.map fmtRow)
+
+def fmtCols (pre : String) (cols : List (Nat × List Val)) : List String :=
+  cols.map fun (c, vs) => s!"{pre}{c}={fmtVals vs}"
+
+/-! class hierarchy -/
+
+def isSubF (parents : List (Option Nat)) : Nat → Nat → Nat → Bool
+  | 0, c, T => c == T
+  | f + 1, c, T => c == T || match parents[c]? with
+      | some (some p) => isSubF parents f p T
+      | _ => false
+
+def parseParents (ws : List String) : Option (List (Option Nat)) :=
+  let rec go (i : Nat) : List String → Option (List (Option Nat))
+    | [] => some []
+    | w :: rest =>
+      if w = "-" then (go (i + 1) rest).map (none :: ·)
+      else match w.toNat? with
+        | some p => if p < i then (go (i + 1) rest).map (some p :: ·) else none
+        | none => none
+  go 0 ws
+
+/-! batch templates -/
+
+def tokCode (t : String) : Int :=
+  match t.toList with
+  | 'i' :: rest => match (String.ofList rest).toInt? with
+    | some k => k
+    | none => (t.toList.foldl (fun acc c => acc + c.toNat) 0 : Nat)
+  | cs => (cs.foldl (fun acc c => acc + c.toNat) 0 : Nat)
+
+def resolve (kw : Kwargs String) (part : String) : String :=
+  match part.toList with
+  | '$' :: rest => match (String.ofList rest).toNat? with
+    | some p => match kw.lookup p with
+      | some t => toString (tokCode t)
+      | none => "0"
+    | none => part
+  | _ => part
+
+def substWord (kw : Kwargs String) (w : String) : String :=
+  "=".intercalate ((w.splitOn "=").map (resolve kw))
+
+/-- instantiate one template op; `rep n op` expands to n copies -/
+def instOp (kw : Kwargs String) (ws : List String) : Option (List Op) :=
+  match ws.map (substWord kw) with
+  | "rep" :: n :: rest => do
+      let n ← n.toNat?
+      let op ← parseOp rest
+      pure (List.replicate n op)
+  | ws' => (parseOp ws').map ([·])
+
+def instOps (kw : Kwargs String) (tmpl : List (List String)) : List Op :=
+  (tmpl.filterMap (instOp kw)).flatten
+
+/-- parameters mentioned in a template -/
+def templateOk (tmpl : List (List String)) : Bool :=
+  tmpl.all fun ws => (instOp [] ws).isSome
+
+structure DSt where
+  mode : Nat                       -- 0 none, 1 collect, 2 batch
+  started : Bool
+  parents : List (Option Nat)
+  mreps : List MRep
+  areps : List ARep
+  treps : List (Nat × List ARep)
+  tables : List (Nat × List Nat)
+  st : State
+  initT : List (List String)
+  bodyT : List (List String)
+  params : List (Nat × PVal String)
+
+def DSt.cfg (d : DSt) : Cfg :=
+  { mreps := d.mreps, areps := d.areps, treps := d.treps,
+    isAgentClass := fun T => T < d.parents.length,
+    isSub := fun c T => isSubF d.parents d.parents.length c T }
+
+def emptyCfg : Cfg := { mreps := [], areps := [], treps := [], isAgentClass := fun _ => false, isSub := fun _ _ => false }
+
+def DSt.fresh (mode : Nat) : DSt :=
+  { mode := mode, started := false, parents := [], mreps := [], areps := [], treps := [], tables := [],
+    st := Mesa.Collect.init emptyCfg [], initT := [], bodyT := [], params := [] }
+
+def fmtKw (kw : Kwargs String) : String :=
+  "{" ++ ",".intercalate (kw.map fun (p, t) => s!"{p}={t}") ++ "}"
+
+def fmtBRow (r : BRow String) : String :=
+  let ag := match r.agent with
+    | none => ""
+    | some (i, vs) => s!"<{i}:{fmtVals vs}>"
+  s!"R{r.runId}/{r.iteration}/{r.step}{fmtKw r.kwargs}[{fmtVals r.model}]{ag}"
+
+/-- an op the scripted model class can execute (its class must exist) -/
+def DSt.opOk (d : DSt) : Op → Bool
+  | .create ty _ => ty < d.parents.length
+  | _ => true
+
+def DSt.cls (d : DSt) (kw : Kwargs String) : Prog :=
+  { cfg := d.cfg, tables := d.tables, init := (instOps kw d.initT).filter d.opOk,
+    body := (instOps kw d.bodyT).filter d.opOk }
+
+def runOut (d : DSt) (it ms : Nat) (per : Int) : String :=
+  match batchRun d.cls d.params it ms per with
+  | .ok rows => " ".intercalate ("ok" :: rows.map fmtBRow)
+  | .error e => fmtErr e
+
+def parsePVal (kind : String) (toks : List String) : Option (PVal String) :=
+  match kind, toks with
+  | "str", [t] => some (.str t)
+  | "scalar", [t] => some (.scalar t)
+  | "sized", ts => some (.sized ts)
+  | "iter", ts => some (.iter ts)
+  | _, _ => none
+
+def defLine (d : DSt) (ws : List String) : Option DSt :=
+  if d.started then none else
+  match ws with
+  | "classes" :: ps => do pure { d with parents := (← parseParents ps) }
+  | "mrep" :: r => do pure { d with mreps := d.mreps ++ [← parseMRep r] }
+  | "arep" :: r => do pure { d with areps := d.areps ++ [← parseARep r] }
+  | "trep" :: T :: rs => do
+      let T ← T.toNat?
+      let reps ← (splitSemi rs).mapM parseARep
+      if (d.treps.lookup T).isSome then none else pure { d with treps := d.treps ++ [(T, reps)] }
+  | "table" :: t :: cs => do pure { d with tables := d.tables ++ [(← t.toNat?, ← cs.mapM (·.toNat?))] }
+  | _ => none
+
+def obsLine (d : DSt) (ws : List String) : Option String :=
+  let s := d.st
+  match ws with
+  | ["mvars"] => some (" ".intercalate ("ok" :: fmtCols "m" (s.modelVars.zipIdx.map fun (vs, i) => (i, vs))))
+  | ["mframe"] => some <| match modelFrame d.cfg s with
+      | .ok (n, cols) => " ".intercalate (s!"ok n={n}" :: fmtCols "m" (cols.zipIdx.map fun (vs, i) => (i, vs)))
+      | .error e => fmtErr e
+  | ["aframe"] => some <| match agentFrame d.cfg s with
+      | .ok rows => fmtRows d.areps.length rows
+      | .error e => fmtErr e
+  | ["tframe", T] => do
+      let T ← T.toNat?
+      pure <| match typeFrame d.cfg s T with
+        | none => "ok none"
+        | some rows => fmtRows ((d.treps.lookup T).getD []).length rows
+  | ["tab", t] => do
+      let t ← t.toNat?
+      pure <| match tableFrame s t with
+        | .ok (n, tab) => " ".intercalate (s!"ok n={n}" :: fmtCols "c" tab)
+        | .error e => fmtErr e
+  | _ => none
+
+def stepLine (d : DSt) (ws : List String) : DSt × String :=
+  match ws with
+  | ["scenario", "collect"] => (DSt.fresh 1, "ok")
+  | ["scenario", "batch"] => (DSt.fresh 2, "ok")
+  | _ =>
+  if d.mode = 0 then (d, "bad-op") else
+  match ws with
+  | [] => (d, "bad-op")
+  | w :: rest =>
+    if w ∈ ["classes", "mrep", "arep", "trep", "table"] then
+      match defLine d ws with
+      | some d' => (d', "ok")
+      | none => (d, "bad-op")
+    else if d.mode = 1 then
+      if ws = ["start"] then
+        if d.started then (d, "bad-op") else ({ d with started := true, st := Mesa.Collect.init d.cfg d.tables }, "ok")
+      else if !d.started then (d, "bad-op")
+      else match obsLine d ws with
+        | some o => (d, o)
+        | none => match parseOp ws with
+          | none => (d, "bad-op")
+          | some op =>
+            if !d.opOk op then (d, "bad-op") else
+            let (s', e) := apply d.cfg d.st op
+            ({ d with st := s' }, match e with | none => "ok" | some e => fmtErr e)
+    else
+      match w with
+      | "init" => let t := splitSemi rest; if templateOk t then ({ d with initT := t }, "ok") else (d, "bad-op")
+      | "body" => let t := splitSemi rest; if templateOk t then ({ d with bodyT := t }, "ok") else (d, "bad-op")
+      | "param" =>
+        match rest with
+        | p :: kind :: toks =>
+          match p.toNat?, parsePVal kind toks with
+          | some p, some pv =>
+            if (d.params.lookup p).isSome then (d, "bad-op") else ({ d with params := d.params ++ [(p, pv)] }, "ok")
+          | _, _ => (d, "bad-op")
+        | _ => (d, "bad-op")
+      | "kwargs" =>
+        if rest ≠ [] then (d, "bad-op") else
+        match makeKwargs d.params with
+        | .ok kws => (d, " ".intercalate ("ok" :: kws.map fmtKw))
+        | .error e => (d, fmtErr e)
+      | "run" =>
+        match rest with
+        | [it, ms, per] =>
+          match it.toNat?, ms.toNat?, per.toInt? with
+          | some it, some ms, some per => (d, runOut d it ms per)
+          | _, _, _ => (d, "bad-op")
+        | _ => (d, "bad-op")
+      | "runp" =>
+        -- number_processes = np > 1: the runs come back in any order; the harness orders the
+        -- runs' row chunks by RunId, which is the serial result (C13_parallel_perm_serial)
+        match rest with
+        | [it, ms, per, np] =>
+          match it.toNat?, ms.toNat?, per.toInt?, np.toNat? with
+          | some it, some ms, some per, some np => if np = 0 then (d, "bad-op") else (d, runOut d it ms per)
+          | _, _, _, _ => (d, "bad-op")
+        | _ => (d, "bad-op")
+      | _ => (d, "bad-op")
+
+partial def loop (h : IO.FS.Stream) (out : IO.FS.Stream) (d : DSt) : IO Unit := do
+  let line ← h.getLine
+  if line.isEmpty then return ()
+  let (d', o) := stepLine d (words line.trimAscii.toString)
+  out.putStrLn o
+  loop h out d'
+
+def main : IO Unit := do
+  let out ← IO.getStdout
+  loop (← IO.getStdin) out (DSt.fresh 0)
+  out.flush
